@@ -141,18 +141,21 @@ theorem fencedContinue_frn : FrN X (fencedContinue X) := by
 theorem htmlContinue_frn : FrN X (htmlContinue X) := by
   unfold htmlContinue; frn
 
-/-- a step that writes only a RAW node keeps the invariant (given the new store's range clause and the unchanged
-    context keys) -/
+/-- a step that writes only a RAW node keeps the invariant (given the new store's range clause, the unchanged
+    context keys, and the order clause for the new lines of that node) -/
 theorem Inv.onlyN {src : Bytes} {B : Int} {s s' : St} (hi : Inv src B s) (h : OnlyN X s s')
-    (hraw : isRaw (nd s X).kind = true) (hpc : s'.pc = s.pc) (hn : NodesOK src s') : Inv src B s' := by
+    (hraw : isRaw (nd s X).kind = true) (hpc : s'.pc = s.pc) (hn : NodesOK src s')
+    (hX : OrdFrom 0 (nd s' X).lines ∧ Below B (nd s' X).lines) : Inv src B s' := by
   have hk : ∀ i, (nd s' i).kind = (nd s i).kind := fun i => by
     by_cases hx : i = X
     · subst hx; exact h.2.2
     · rw [h.2.1 i hx]
-  refine ⟨fun i hr => ?_, fun i hkp => ?_, fun i hkp => ?_, fun t ht => ?_, fun b hb => ?_, hn⟩
+  refine ⟨fun i => ?_, fun i hkp => ?_, fun i hkp => ?_, fun t ht => ?_, fun b hb => ?_, hn⟩
   · by_cases hx : i = X
-    · subst hx; rw [h.2.2, hraw] at hr; cases hr
-    · rw [h.2.1 i hx] at hr ⊢; exact hi.nrb i hr
+    · subst hx
+      exact ⟨(fun hr => by rw [h.2.2, hraw] at hr; cases hr), fun _ => hX,
+        (fun hr => by rw [h.2.2, noLinesKind_of_raw hraw] at hr; cases hr)⟩
+    · rw [h.2.1 i hx]; exact hi.nrb i
   · by_cases hx : i = X
     · subst hx; rw [h.2.2] at hkp; rw [hkp] at hraw; cases hraw
     · rw [h.2.1 i hx] at hkp ⊢; exact hi.pne i hkp
